@@ -9,6 +9,7 @@ import (
 	"strings"
 	"time"
 
+	"verif/engine/driver"
 	"verif/engine/sym"
 )
 
@@ -64,6 +65,22 @@ func buildOverlay(repo, hdir string, filter func(name string) bool) (map[string]
 }
 
 func main() {
+	if len(os.Args) > 1 && os.Args[1] == "check" {
+		fs := flag.NewFlagSet("check", flag.ExitOnError)
+		repo := fs.String("repo", "/repo", "repository under test")
+		verif := fs.String("verif", "/verif", "verification directory")
+		prop := fs.String("property", "", "property id")
+		tier := fs.String("tier", "quick", "quick|thorough")
+		workers := fs.Int("workers", 16, "parallel workers")
+		only := fs.String("only", "", "harness name prefix")
+		verbose := fs.Bool("v", false, "print non-ok outcomes")
+		fs.Parse(os.Args[2:])
+		seed := int64(0)
+		if s := os.Getenv("VERIF_SEED"); s != "" {
+			fmt.Sscan(s, &seed)
+		}
+		os.Exit(driver.Check(driver.Options{Repo: *repo, Verif: *verif, Property: *prop, Tier: *tier, Workers: *workers, Seed: seed, Only: *only, Verbose: *verbose}))
+	}
 	repo := flag.String("repo", "/repo", "repository under test")
 	hdir := flag.String("harness-dir", "/verif/harness", "harness directory")
 	harness := flag.String("harness", "", "harness function name (or prefix)")
